@@ -177,6 +177,19 @@ func main() {
 			})
 		}
 		add("blocked BLMOVE", func(cl *client) { cl.c.Write(cmd("BLMOVE", "emptyq2", "dst", "LEFT", "RIGHT", "0")) })
+		if cycle%2 == 1 {
+			// a blocked client that another connection kills before the termination: the command it left behind must
+			// not keep Close waiting
+			if victim, err := dial(port); err == nil {
+				line, _ := victim.roundtrip(10*time.Second, "CLIENT", "ID")
+				id := strings.TrimSpace(strings.TrimPrefix(line, ":"))
+				victim.c.Write(cmd(pick(r, "BLPOP", "BRPOP"), "emptyq3", "0"))
+				time.Sleep(20 * time.Millisecond)
+				probe.roundtrip(10*time.Second, "CLIENT", "KILL", "ID", id)
+				stats["killed_blocked_clients"]++
+				note("a blocked client (id " + id + ") killed with CLIENT KILL before the termination")
+			}
+		}
 		bigReply := cycle%3 == 0
 		if bigReply {
 			// a client that asked for more than the socket buffers hold and does not read: the emulator
@@ -253,7 +266,7 @@ func main() {
 		}
 		took := time.Since(t0)
 		stats["close_ms_total"] += int(took.Milliseconds())
-		if stall := time.Duration(stallNs.Load()); took > 5*time.Second && took-stall <= 5*time.Second {
+		if stall := time.Duration(stallNs.Load()); took > 5*time.Second && stall > time.Second && took-stall <= 5*time.Second {
 			// the harness's own 20 ms ticker was late by `stall`: the machine stood still, not the emulator
 			stats["close_measurements_void_process_stalled"]++
 			note(fmt.Sprintf("Close returned after %v of which the process was not running for %v", took, stall))
